@@ -353,7 +353,7 @@ fn words_with_bits(k: usize, out: &mut Vec<u64>) {
 fn select_words(ctx: &Ctx) -> (Vec<u64>, Vec<(String, usize)>) {
     let mut sizes: Vec<(String, usize)> = Vec::new();
     let mut base: Vec<u64> = Vec::new();
-    let max_bits = ctx.tier.pick(3, 5);
+    let max_bits = ctx.tier.pick(4, 5);
     for k in 0..=max_bits {
         words_with_bits(k, &mut base);
     }
